@@ -66,7 +66,8 @@ def run(ctx, rep):
                 if r in ("ast::Range::new", "ast::Position::new"):
                     callers.add(p)
         allowed = set(user_acts) | {"ast::Range::new", "diagnostic::Diagnostic::from_parse_error"} | set(p for p in facts.fns if p.startswith("ast::Type::"))
-        stray = sorted(callers - allowed)
+        # closures of user actions are tabulated (inlined) with their action: their Range::new sites are among the D1 obligations
+        stray = sorted(c for c in callers - allowed if c.split("::{closure")[0] not in user_acts)
         # from_parse_error forwards the library's own boundaries untouched (C04 G1)
         FPE = "diagnostic::Diagnostic::from_parse_error"
         paths = Machine(facts, opaque_fns=["diagnostic::expected_token_str", "ast::Range::new"], pure_fns=["diagnostic::expected_token_str", "ast::Range::new"]).run(FPE, [sym_ref("lookup"), Opaque("e", "lalrpop_util::ParseError")])
